@@ -1,6 +1,829 @@
-//! C13: harness commands for property C13 (stub).
+//! C13: default ignorables. Runs the real classification, the real `delete_glyphs_inplace`, the real
+//! default-ignorable passes of ot_shape.rs (through the guarded hooks in rustybuzz::verif::unicode)
+//! and the public shaping API on generated cmap-only fonts.
+//!
+//!   rbv c13 classify                         exhaustive classification as ranges
+//!   rbv c13 delete --seed S --n N            hook: delete_glyphs_inplace cases
+//!   rbv c13 passes --seed S --n N            hook: zero_width + hide cases
+//!   rbv c13 fonts                            descriptors of the generated fonts
+//!   rbv c13 api --seed S --n N --spec R      API cases for the model correspondence (LTR)
+//!   rbv c13 search --seed S --spec R --per K [--all 1]   property predicate through the API
+//!   rbv c13 one --font F --flags X --level L --dir D --text a,b,c --pos P --cp C   single case
+//!   rbv c13 probe --cp C                     classification + shaping of one code point
+use crate::shp::{dir_name, dir_parse, level_of};
+use crate::util::*;
+use rustybuzz::verif::unicode as hook;
+use rustybuzz::verif::unicode::VGlyph;
+use rustybuzz::{BufferFlags, Direction, Face, UnicodeBuffer};
 
-pub fn run(_args: &[String]) {
-    eprintln!("c13: not implemented");
-    std::process::exit(2);
+// ------------------------------------------------------------------------------------------------
+// minimal sfnt writer: head hhea maxp(0.5) hmtx cmap(format 12, platform 3 encoding 10)
+
+fn be16(v: &mut Vec<u8>, x: u16) {
+    v.extend_from_slice(&x.to_be_bytes());
+}
+fn be32(v: &mut Vec<u8>, x: u32) {
+    v.extend_from_slice(&x.to_be_bytes());
+}
+
+pub fn adv_of(gid: u32) -> i32 {
+    300 + 7 * (gid % 64) as i32
+}
+
+/// groups: (first char, last char, first glyph), sorted by char.
+fn build_font(groups: &[(u32, u32, u32)], num_glyphs: u16) -> Vec<u8> {
+    let mut head = Vec::new();
+    be32(&mut head, 0x00010000); // version
+    be32(&mut head, 0x00010000); // fontRevision
+    be32(&mut head, 0); // checksumAdjustment
+    be32(&mut head, 0x5F0F3CF5); // magic
+    be16(&mut head, 0); // flags
+    be16(&mut head, 1000); // unitsPerEm
+    head.extend_from_slice(&[0u8; 16]); // created, modified
+    for v in [0i16, -200, 1000, 800] {
+        be16(&mut head, v as u16); // xMin yMin xMax yMax
+    }
+    be16(&mut head, 0); // macStyle
+    be16(&mut head, 8); // lowestRecPPEM
+    be16(&mut head, 2); // fontDirectionHint
+    be16(&mut head, 0); // indexToLocFormat
+    be16(&mut head, 0); // glyphDataFormat
+
+    let mut hhea = Vec::new();
+    be32(&mut hhea, 0x00010000);
+    be16(&mut hhea, 800); // ascender
+    be16(&mut hhea, (-200i16) as u16); // descender
+    be16(&mut hhea, 0); // lineGap
+    be16(&mut hhea, 1000); // advanceWidthMax
+    for _ in 0..11 {
+        be16(&mut hhea, 0);
+    }
+    be16(&mut hhea, num_glyphs); // numberOfHMetrics
+
+    let mut maxp = Vec::new();
+    be32(&mut maxp, 0x00005000);
+    be16(&mut maxp, num_glyphs);
+
+    let mut hmtx = Vec::new();
+    for g in 0..num_glyphs {
+        be16(&mut hmtx, adv_of(g as u32) as u16);
+        be16(&mut hmtx, 0);
+    }
+
+    let mut cmap = Vec::new();
+    be16(&mut cmap, 0); // version
+    be16(&mut cmap, 1); // numTables
+    be16(&mut cmap, 3); // platform
+    be16(&mut cmap, 10); // encoding
+    be32(&mut cmap, 12); // offset
+    be16(&mut cmap, 12); // format
+    be16(&mut cmap, 0);
+    be32(&mut cmap, 16 + 12 * groups.len() as u32); // length
+    be32(&mut cmap, 0); // language
+    be32(&mut cmap, groups.len() as u32);
+    for (a, b, g) in groups {
+        be32(&mut cmap, *a);
+        be32(&mut cmap, *b);
+        be32(&mut cmap, *g);
+    }
+
+    let tables: Vec<(&[u8; 4], Vec<u8>)> =
+        vec![(b"cmap", cmap), (b"head", head), (b"hhea", hhea), (b"hmtx", hmtx), (b"maxp", maxp)];
+    let n = tables.len() as u16;
+    let mut out = Vec::new();
+    be32(&mut out, 0x00010000);
+    be16(&mut out, n);
+    be16(&mut out, 64); // searchRange
+    be16(&mut out, 2); // entrySelector
+    be16(&mut out, n * 16 - 64);
+    let mut off = 12 + 16 * tables.len() as u32;
+    let mut body = Vec::new();
+    for (tag, data) in &tables {
+        out.extend_from_slice(&tag[..]);
+        be32(&mut out, 0); // checksum (not verified by ttf-parser)
+        be32(&mut out, off);
+        be32(&mut out, data.len() as u32);
+        body.extend_from_slice(data);
+        let pad = (4 - data.len() % 4) % 4;
+        body.extend(std::iter::repeat(0u8).take(pad));
+        off += (data.len() + pad) as u32;
+    }
+    out.extend_from_slice(&body);
+    out
+}
+
+pub struct GenFont {
+    pub name: String,
+    pub data: Vec<u8>,
+    pub groups: Vec<(u32, u32, u32)>,
+    pub space: Option<u32>,
+    pub num_glyphs: u32,
+}
+
+impl GenFont {
+    pub fn gid(&self, cp: u32) -> u32 {
+        for (a, b, g) in &self.groups {
+            if *a <= cp && cp <= *b {
+                return g + (cp - a);
+            }
+        }
+        0
+    }
+}
+
+/// The letters of the test texts: ASCII a..h (script Latin) and PUA U+E000..U+E01F (script Unknown);
+/// all gc != Mark, default shaper, left-to-right.
+pub fn letters() -> Vec<u32> {
+    let mut v: Vec<u32> = (0x61..=0x68).collect();
+    v.extend(0xE000..=0xE01F);
+    v
+}
+
+/// Code points given own glyphs when `ign_mapped`: every code point of the candidate ranges
+/// (the specification's ranges plus the four fillers).
+fn gen_font(space: bool, ign_mapped: bool, spec: &[(u32, u32)]) -> GenFont {
+    let mut cps: Vec<u32> = letters();
+    if space {
+        cps.push(0x20);
+    }
+    if ign_mapped {
+        for (a, b) in spec {
+            cps.extend(*a..=*b);
+        }
+        cps.extend([0x115F, 0x1160, 0x3164, 0xFFA0]);
+    }
+    cps.sort();
+    cps.dedup();
+    let mut groups: Vec<(u32, u32, u32)> = Vec::new();
+    let mut gid = 1u32;
+    for cp in &cps {
+        match groups.last_mut() {
+            Some((_, b, _)) if *b + 1 == *cp => *b = *cp,
+            _ => groups.push((*cp, *cp, gid)),
+        }
+        gid += 1;
+    }
+    let data = build_font(&groups, gid as u16);
+    let name = format!("{}{}", if space { "S" } else { "N" }, if ign_mapped { "M" } else { "U" });
+    let mut f = GenFont { name, data, groups, space: None, num_glyphs: gid };
+    if space {
+        f.space = Some(f.gid(0x20));
+    }
+    f
+}
+
+pub fn gen_fonts(spec: &[(u32, u32)]) -> Vec<GenFont> {
+    vec![
+        gen_font(true, true, spec),
+        gen_font(false, true, spec),
+        gen_font(true, false, spec),
+        gen_font(false, false, spec),
+    ]
+}
+
+fn parse_spec(args: &[String]) -> Vec<(u32, u32)> {
+    let s = arg_str(args, "--spec").unwrap_or("");
+    let mut v = Vec::new();
+    for it in s.split(',') {
+        if it.is_empty() {
+            continue;
+        }
+        let (a, b) = it.split_once('-').unwrap_or((it, it));
+        v.push((u32::from_str_radix(a, 16).unwrap(), u32::from_str_radix(b, 16).unwrap()));
+    }
+    if v.is_empty() {
+        eprintln!("c13: --spec lo-hi,... (hex) is required");
+        std::process::exit(2);
+    }
+    v
+}
+
+// ------------------------------------------------------------------------------------------------
+
+pub fn run(args: &[String]) {
+    quiet_panics();
+    match args.get(0).map(|s| s.as_str()) {
+        Some("classify") => classify(),
+        Some("delete") => delete(args),
+        Some("passes") => passes(args),
+        Some("fonts") => fonts(args),
+        Some("api") => api(args),
+        Some("search") => search(args),
+        Some("one") => one(args),
+        Some("probe") => probe(args),
+        _ => {
+            eprintln!("c13 classify|delete|passes|fonts|api|search|one|probe");
+            std::process::exit(2)
+        }
+    }
+}
+
+fn ranges_of(pred: impl Fn(char) -> bool) -> String {
+    let mut out = String::new();
+    let mut start: Option<u32> = None;
+    for cp in 0..=0x110000u32 {
+        let v = if cp < 0x110000 { char::from_u32(cp).map(|c| pred(c)).unwrap_or(false) } else { false };
+        match (v, start) {
+            (true, None) => start = Some(cp),
+            (false, Some(s)) => {
+                out.push_str(&format!(" {:X}-{:X}", s, cp - 1));
+                start = None;
+            }
+            _ => {}
+        }
+    }
+    out
+}
+
+/// Exhaustive over all 0x110000 code points (surrogates are not chars: reported as not ignorable).
+fn classify() {
+    println!("ign{}", ranges_of(hook::is_default_ignorable));
+    println!("bit{}", ranges_of(|c| hook::init_unicode_props(c).0 & 0x20 != 0));
+    println!("scratch{}", ranges_of(|c| hook::init_unicode_props(c).1 & 0x2 != 0));
+    println!("classify-summary evaluations={}", 0x110000 - 0x800);
+}
+
+fn fmt_v(g: &VGlyph) -> String {
+    format!(
+        "{},{},{},{},{},{},{},{},{}",
+        g.glyph_id, g.cluster, g.mask, g.unicode_props, g.glyph_props, g.pos[0], g.pos[1], g.pos[2], g.pos[3]
+    )
+}
+
+fn fmt_vs(gs: &[VGlyph]) -> String {
+    if gs.is_empty() {
+        return "-".to_string();
+    }
+    gs.iter().map(fmt_v).collect::<Vec<_>>().join(";")
+}
+
+fn rand_clusters(r: &mut Rng, n: usize) -> Vec<u32> {
+    let mut v = Vec::with_capacity(n);
+    let kind = r.below(4);
+    let mut c = r.below(4) as u32;
+    for _ in 0..n {
+        match kind {
+            0 => {
+                // non-decreasing with repeats
+                c += r.below(3) as u32;
+            }
+            1 => {
+                // strictly increasing
+                c += 1 + r.below(2) as u32;
+            }
+            _ => {}
+        }
+        v.push(match kind {
+            0 | 1 => c,
+            2 => 0, // placeholder, reversed below
+            _ => r.below(6) as u32, // arbitrary
+        });
+    }
+    if kind == 2 {
+        let mut c = r.below(3) as u32;
+        for i in (0..n).rev() {
+            v[i] = c;
+            c += r.below(3) as u32;
+        }
+    }
+    v
+}
+
+fn rand_glyphs(r: &mut Rng) -> Vec<VGlyph> {
+    let n = match r.below(10) {
+        0 => 0,
+        1 => 1,
+        _ => r.range(2, 9) as usize,
+    };
+    let cl = rand_clusters(r, n);
+    let dens = r.range(1, 4);
+    (0..n)
+        .map(|i| {
+            let ign = r.chance(dens, 5);
+            let mut up = r.below(0x20) as u16 | ((r.below(4) as u16) << 6) | ((r.below(3) as u16) << 8);
+            if ign {
+                up |= 0x20;
+            }
+            let mut gp = [0u16, 2, 4, 8][r.below(4) as usize];
+            if r.chance(1, 6) {
+                gp |= 0x10;
+            }
+            if r.chance(1, 8) {
+                gp |= 0x20 | 0x40;
+            }
+            let mask = match r.below(4) {
+                0 => 0,
+                1 => r.below(8) as u32,
+                2 => 0x8000_0000 | r.below(8) as u32,
+                _ => (r.next() as u32) & 0x7FFF_FFFF,
+            };
+            VGlyph {
+                glyph_id: r.below(50) as u32,
+                cluster: cl[i],
+                mask,
+                unicode_props: up,
+                glyph_props: gp,
+                pos: [
+                    r.range(0, 900) as i32,
+                    -(r.below(3) as i32) * 100,
+                    r.below(40) as i32 - 20,
+                    r.below(40) as i32 - 20,
+                ],
+            }
+        })
+        .collect()
+}
+
+fn delete(args: &[String]) {
+    let seed = arg_u64(args, "--seed", 1);
+    let n = arg_u64(args, "--n", 100);
+    let mut r = Rng::new(seed ^ 0xC13D);
+    for k in 0..n {
+        let level = r.below(3) as u8;
+        let gs = rand_glyphs(&mut r);
+        let gs2 = gs.clone();
+        match catch(move || hook::delete_default_ignorables(level, &gs2)) {
+            Ok(out) => println!("delete {} {} | {} | {}", k, level, fmt_vs(&gs), fmt_vs(&out)),
+            Err(e) => println!("delete {} {} | {} | panic {}", k, level, fmt_vs(&gs), e),
+        }
+    }
+}
+
+fn passes(args: &[String]) {
+    let seed = arg_u64(args, "--seed", 1);
+    let n = arg_u64(args, "--n", 100);
+    let spec = vec![(0x200Bu32, 0x200Fu32)];
+    let fonts = gen_fonts(&spec);
+    let faces: Vec<Face> = fonts.iter().map(|f| Face::from_slice(&f.data, 0).expect("generated font")).collect();
+    let mut r = Rng::new(seed ^ 0xC13E);
+    for k in 0..n {
+        let level = r.below(3) as u8;
+        let flags = [0u32, 4, 8, 12, 1, 0x40 | 8][r.below(6) as usize];
+        let scratch: u32 = match r.below(8) {
+            0 => 0,
+            1 => 0x1 | 0x20,
+            2 => (r.next() as u32) & 0xFF,
+            _ => 0x2 | ((r.below(2) as u32) * 0x21),
+        };
+        let fi = r.below(2) as usize; // S* / N*
+        let invisible = if r.chance(1, 5) { Some(r.range(1, 30) as u16) } else { None };
+        let gs = rand_glyphs(&mut r);
+        let gs2 = gs.clone();
+        let face = faces[fi].clone();
+        let space = fonts[fi].space.map(|g| g.to_string()).unwrap_or("-".into());
+        let inv = invisible.map(|g| g.to_string()).unwrap_or("-".into());
+        let res = catch(std::panic::AssertUnwindSafe(move || {
+            hook::default_ignorable_passes(&face, level, flags, scratch, invisible, &gs2)
+        }));
+        let head = format!("passes {} {} {} {} {} {}", k, level, flags, scratch, inv, space);
+        match res {
+            Ok(out) => println!("{} | {} | {}", head, fmt_vs(&gs), fmt_vs(&out)),
+            Err(e) => println!("{} | {} | panic {}", head, fmt_vs(&gs), e),
+        }
+    }
+}
+
+fn fonts(args: &[String]) {
+    let spec = parse_spec(args);
+    for f in gen_fonts(&spec) {
+        let face = Face::from_slice(&f.data, 0).expect("generated font");
+        // self-check of the writer: cmap and hmtx read back through the library
+        let mut bad = 0;
+        for (a, b, _) in &f.groups {
+            for cp in *a..=*b {
+                let g = f.gid(cp);
+                let got = face.glyph_index(char::from_u32(cp).unwrap()).map(|x| x.0 as u32).unwrap_or(0);
+                let adv = face.glyph_hor_advance(rustybuzz::ttf_parser::GlyphId(g as u16)).unwrap_or(0) as i32;
+                if got != g || adv != adv_of(g) {
+                    bad += 1;
+                }
+            }
+        }
+        let gs: Vec<String> = f.groups.iter().map(|(a, b, g)| format!("{:X}-{:X}:{}", a, b, g)).collect();
+        println!(
+            "font {} space={} glyphs={} selfcheck_bad={} groups={}",
+            f.name,
+            f.space.map(|g| g.to_string()).unwrap_or("-".into()),
+            f.num_glyphs,
+            bad,
+            gs.join(",")
+        );
+    }
+}
+
+#[derive(Clone, Debug)]
+struct Out {
+    gid: u32,
+    cluster: u32,
+    pos: [i32; 4],
+}
+
+fn shape(face: &Face, text: &[u32], dir: Option<Direction>, flags: u32, level: u8) -> Result<Vec<Out>, String> {
+    let face = face.clone();
+    let text = text.to_vec();
+    catch(std::panic::AssertUnwindSafe(move || {
+        let mut b = UnicodeBuffer::new();
+        for (i, cp) in text.iter().enumerate() {
+            b.add(char::from_u32(*cp).unwrap(), i as u32);
+        }
+        if let Some(d) = dir {
+            b.set_direction(d);
+        }
+        b.set_flags(BufferFlags::from_bits_truncate(flags));
+        b.set_cluster_level(level_of(level));
+        let gb = rustybuzz::shape(&face, &[], b);
+        let infos = gb.glyph_infos();
+        let pos = gb.glyph_positions();
+        (0..infos.len())
+            .map(|i| Out {
+                gid: infos[i].glyph_id,
+                cluster: infos[i].cluster,
+                pos: [pos[i].x_advance, pos[i].y_advance, pos[i].x_offset, pos[i].y_offset],
+            })
+            .collect()
+    }))
+}
+
+fn fmt_out(o: &[Out]) -> String {
+    if o.is_empty() {
+        return "-".into();
+    }
+    o.iter()
+        .map(|g| format!("{},{},{},{},{},{}", g.gid, g.cluster, g.pos[0], g.pos[1], g.pos[2], g.pos[3]))
+        .collect::<Vec<_>>()
+        .join(";")
+}
+
+fn fmt_text(t: &[u32]) -> String {
+    if t.is_empty() {
+        return "-".into();
+    }
+    t.iter().map(|c| format!("{:X}", c)).collect::<Vec<_>>().join(",")
+}
+
+fn spec_cps(spec: &[(u32, u32)]) -> Vec<u32> {
+    let mut v = Vec::new();
+    for (a, b) in spec {
+        v.extend(*a..=*b);
+    }
+    v
+}
+
+/// Seeded sample that always contains the named representatives.
+fn sample_cps(spec: &[(u32, u32)], r: &mut Rng, extra: usize) -> Vec<u32> {
+    let all = spec_cps(spec);
+    let mut v: Vec<u32> = vec![
+        0xAD, 0x34F, 0x61C, 0x17B4, 0x17B5, 0x180B, 0x180C, 0x180D, 0x180E, 0x180F, 0x200B, 0x200C, 0x200D, 0x200E,
+        0x200F, 0x202A, 0x202E, 0x2060, 0x2065, 0x206F, 0xFE00, 0xFE0E, 0xFE0F, 0xFEFF, 0xFFF0, 0xFFF8, 0x1BCA0,
+        0x1BCA3, 0x1D173, 0x1D17A, 0xE0000, 0xE0001, 0xE0020, 0xE007F, 0xE0100, 0xE01EF, 0xE0FFF,
+    ];
+    v.retain(|c| all.contains(c));
+    for _ in 0..extra {
+        v.push(*r.pick(&all));
+    }
+    v.sort();
+    v.dedup();
+    v
+}
+
+fn rand_text(r: &mut Rng, letters: &[u32], max: u64) -> Vec<u32> {
+    let n = r.range(0, max) as usize;
+    (0..n).map(|_| *r.pick(letters)).collect()
+}
+
+/// Cases for the model correspondence: left-to-right, texts of letters with 0..3 candidate code
+/// points inserted; prints the implementation's output.
+fn api(args: &[String]) {
+    let seed = arg_u64(args, "--seed", 1);
+    let n = arg_u64(args, "--n", 200);
+    let spec = parse_spec(args);
+    let fonts = gen_fonts(&spec);
+    let faces: Vec<Face> = fonts.iter().map(|f| Face::from_slice(&f.data, 0).expect("generated font")).collect();
+    let letters = letters();
+    let mut r = Rng::new(seed ^ 0xC13A);
+    let cps = sample_cps(&spec, &mut r, 40);
+    let all = spec_cps(&spec);
+    for k in 0..n {
+        let fi = r.below(4) as usize;
+        let flags = [0u32, 4, 8][r.below(3) as usize];
+        let level = r.below(3) as u8;
+        let mut text = rand_text(&mut r, &letters, 5);
+        for _ in 0..r.below(4) {
+            let cp = if r.chance(1, 2) { *r.pick(&cps) } else { *r.pick(&all) };
+            let at = r.below(text.len() as u64 + 1) as usize;
+            text.insert(at, cp);
+        }
+        // m=: the characters of the text whose general category is a mark (Mc 10, Me 11, Mn 12 in the real
+        // init_unicode_props): unless hidden they are positioned as marks, which the simple model leaves out
+        let marks: Vec<String> = text
+            .iter()
+            .filter(|c| {
+                let gc = hook::init_unicode_props(char::from_u32(**c).unwrap()).0 & 0x1F;
+                (10..=12).contains(&gc)
+            })
+            .map(|c| format!("{:X}", c))
+            .collect();
+        // rtl=1: the script guessed from the text is a right-to-left script (only U+061C ARABIC LETTER
+        // MARK can cause that here): the run is shaped in its native direction and reversed back, which
+        // moves continuation characters in front of their base; outside the simple model
+        let rtl = {
+            let mut b = UnicodeBuffer::new();
+            for (i, cp) in text.iter().enumerate() {
+                b.add(char::from_u32(*cp).unwrap(), i as u32);
+            }
+            b.guess_segment_properties();
+            b.direction() == Direction::RightToLeft
+        };
+        let head = format!(
+            "api {} {} {} {} m={} rtl={}",
+            k,
+            fonts[fi].name,
+            flags,
+            level,
+            if marks.is_empty() { "-".to_string() } else { marks.join(",") },
+            rtl as u8
+        );
+        match shape(&faces[fi], &text, Some(Direction::LeftToRight), flags, level) {
+            Ok(o) => println!("{} | {} | {}", head, fmt_text(&text), fmt_out(&o)),
+            Err(e) => println!("{} | {} | panic {}", head, fmt_text(&text), e),
+        }
+    }
+}
+
+struct Case<'a> {
+    font: &'a GenFont,
+    face: &'a Face<'a>,
+    flags: u32,
+    level: u8,
+    dir: Direction,
+    text: &'a [u32],
+    pos: usize,
+    cp: u32,
+}
+
+/// The property predicate on the implementation's output. Returns the name of the violated clause.
+/// Err = a clause of the property fails; Ok(Some(note)) = the property holds but something it does
+/// not speak about changed (other glyphs in a non-LTR run, offsets of other glyphs).
+fn predicate(c: &Case) -> Result<Option<String>, String> {
+    let base = shape(c.face, c.text, Some(c.dir), c.flags, c.level).map_err(|e| format!("panic-base:{}", e))?;
+    let mut with = c.text.to_vec();
+    with.insert(c.pos, c.cp);
+    let out = shape(c.face, &with, Some(c.dir), c.flags, c.level).map_err(|e| format!("panic:{}", e))?;
+    if base.len() != c.text.len() {
+        return Err(format!("base-length {}!={}", base.len(), c.text.len()));
+    }
+    predicate_on(c, &base, &with, &out, false)?;
+    Ok(predicate_on(c, &base, &with, &out, true).err())
+}
+
+/// `full` = false: exactly the property (identity and advances of the other glyphs for LTR; for the
+/// other directions only the hidden/removed clause and the glyph count). `full` = true: the other
+/// glyphs must be unchanged in id and all four position fields in every direction.
+fn predicate_on(c: &Case, base: &[Out], with: &[u32], out: &[Out], full: bool) -> Result<(), String> {
+    let backward = matches!(c.dir, Direction::RightToLeft | Direction::BottomToTop);
+    let ltr = c.dir == Direction::LeftToRight;
+    let others_same = |o: &[Out]| -> Result<(), String> {
+        if o.len() != base.len() {
+            return Err(format!("others-count {}!={}", o.len(), base.len()));
+        }
+        if !(ltr || full) {
+            return Ok(());
+        }
+        for (a, b) in o.iter().zip(base.iter()) {
+            if a.gid != b.gid {
+                return Err(format!("other-glyph-identity {}!={}", a.gid, b.gid));
+            }
+            if a.pos[0] != b.pos[0] || a.pos[1] != b.pos[1] {
+                return Err(format!("other-glyph-advance {:?}!={:?}", a.pos, b.pos));
+            }
+            if full && a.pos != b.pos {
+                return Err(format!("other-glyph-offset {:?}!={:?}", a.pos, b.pos));
+            }
+        }
+        Ok(())
+    };
+    // The inserted character's glyph is looked for at every index (in backward runs a mark stays
+    // behind its base when the run is reversed, so its index is not determined by `pos` alone):
+    // some glyph must look as `want` demands and the remaining glyphs must be the base result.
+    let one_extra = |what: &str, want: &dyn Fn(&Out) -> Result<(), String>| -> Result<(), String> {
+        if out.len() != base.len() + 1 {
+            return Err(format!("{}-count {}!={}", what, out.len(), base.len() + 1));
+        }
+        let mut first_err: Option<String> = None;
+        for at in 0..out.len() {
+            let r = want(&out[at]).and_then(|_| {
+                let mut rest = out.to_vec();
+                rest.remove(at);
+                others_same(&rest)
+            });
+            match r {
+                Ok(()) => return Ok(()),
+                Err(e) => {
+                    // prefer the diagnosis at the expected index
+                    let expected = if backward { with.len() - 1 - c.pos } else { c.pos };
+                    if at == expected || first_err.is_none() {
+                        first_err = Some(e);
+                    }
+                }
+            }
+        }
+        Err(first_err.unwrap_or_else(|| "no-glyph".into()))
+    };
+    let preserve = c.flags & 4 != 0;
+    let remove = c.flags & 8 != 0;
+    if preserve {
+        // rendered with its own glyph
+        let own = c.font.gid(c.cp);
+        return one_extra("preserve", &|g: &Out| {
+            if g.gid != own {
+                Err(format!("preserve-own-glyph {}!={}", g.gid, own))
+            } else {
+                Ok(())
+            }
+        });
+    }
+    if !remove && c.font.space.is_some() {
+        // shown with the space glyph, zero advance and offset
+        let sp = c.font.space.unwrap();
+        return one_extra("hidden", &|g: &Out| {
+            if g.gid != sp {
+                Err(format!("hidden-not-space-glyph {}", g.gid))
+            } else if g.pos != [0, 0, 0, 0] {
+                Err(format!("hidden-not-zero {:?}", g.pos))
+            } else {
+                Ok(())
+            }
+        });
+    }
+    // removed
+    others_same(&out).map_err(|e| format!("removed:{}", e))?;
+    // cluster merged into a neighbour: every cluster value is an input value, the sequence is
+    // monotone in the run direction, and (levels 0,1) the minimum input cluster is still there
+    let n = with.len() as u32;
+    for g in out {
+        if g.cluster >= n {
+            return Err(format!("removed:cluster-not-from-input {}", g.cluster));
+        }
+    }
+    for w in out.windows(2) {
+        let okm = if backward { w[0].cluster >= w[1].cluster } else { w[0].cluster <= w[1].cluster };
+        if !okm {
+            return Err("removed:clusters-not-monotone".into());
+        }
+    }
+    if c.level < 2 && !out.is_empty() && !out.iter().any(|g| g.cluster == 0) {
+        return Err("removed:min-cluster-lost".into());
+    }
+    Ok(())
+}
+
+fn case_line(c: &Case) -> String {
+    format!(
+        "font={} flags={} level={} dir={} text={} pos={} cp={:X}",
+        c.font.name,
+        c.flags,
+        c.level,
+        dir_name(Some(c.dir)),
+        fmt_text(c.text),
+        c.pos,
+        c.cp
+    )
+}
+
+/// Every candidate code point (all of them with --all 1, else a seeded sample with the named
+/// representatives) x {default, PRESERVE, REMOVE} x 4 directions x 4 fonts x `per` random
+/// (text, position) pairs, every insertion position of short texts included.
+fn search(args: &[String]) {
+    let seed = arg_u64(args, "--seed", 1);
+    let per = arg_u64(args, "--per", 2);
+    let all = arg_u64(args, "--all", 0) != 0;
+    let spec = parse_spec(args);
+    let fonts = gen_fonts(&spec);
+    let faces: Vec<Face> = fonts.iter().map(|f| Face::from_slice(&f.data, 0).expect("generated font")).collect();
+    let letters = letters();
+    let mut r = Rng::new(seed ^ 0xC135);
+    let cps = if all { spec_cps(&spec) } else { sample_cps(&spec, &mut r, 60) };
+    let _ = &letters;
+    let dirs = [Direction::LeftToRight, Direction::RightToLeft, Direction::TopToBottom, Direction::BottomToTop];
+    let mut evals = 0u64;
+    let mut bad = 0u64;
+    let mut beyond = 0u64;
+    let mut distinct: std::collections::HashSet<u64> = std::collections::HashSet::new();
+    let mut failing_cps: Vec<u32> = Vec::new();
+    for cp in &cps {
+        let mut reported = 0;
+        for _ in 0..per {
+            let text = rand_text(&mut r, &letters, 4);
+            for pos in 0..=text.len() {
+                for (fi, font) in fonts.iter().enumerate() {
+                    for flags in [0u32, 4, 8] {
+                        for dir in dirs {
+                            let level = r.below(3) as u8;
+                            let c = Case { font, face: &faces[fi], flags, level, dir, text: &text, pos, cp: *cp };
+                            evals += 1;
+                            {
+                                use std::hash::{Hash, Hasher};
+                                let mut h = std::collections::hash_map::DefaultHasher::new();
+                                (fi, flags, level, dir_name(Some(dir)), &text, pos, *cp).hash(&mut h);
+                                distinct.insert(h.finish());
+                            }
+                            match predicate(&c) {
+                                Err(e) => {
+                                    bad += 1;
+                                    if !failing_cps.contains(cp) {
+                                        failing_cps.push(*cp);
+                                    }
+                                    if reported < 3 {
+                                        reported += 1;
+                                        println!("fail {} | {}", case_line(&c), e);
+                                    }
+                                }
+                                Ok(Some(n)) => {
+                                    beyond += 1;
+                                    if beyond <= 5 {
+                                        println!("beyond {} | {}", case_line(&c), n);
+                                    }
+                                }
+                                Ok(None) => {}
+                            }
+                        }
+                    }
+                }
+            }
+        }
+    }
+    let f: Vec<String> = failing_cps.iter().map(|c| format!("{:X}", c)).collect();
+    println!("failing-cps {}", f.join(","));
+    println!(
+        "search-summary evaluations={} distinct={} codepoints={} bad={} beyond_property={}",
+        evals,
+        distinct.len(),
+        cps.len(),
+        bad,
+        beyond
+    );
+}
+
+fn one(args: &[String]) {
+    let spec = parse_spec(args);
+    let fonts = gen_fonts(&spec);
+    let name = arg_str(args, "--font").unwrap_or("SM");
+    let fi = fonts.iter().position(|f| f.name == name).unwrap_or(0);
+    let face = Face::from_slice(&fonts[fi].data, 0).expect("generated font");
+    let text: Vec<u32> = arg_str(args, "--text")
+        .unwrap_or("-")
+        .split(',')
+        .filter_map(|x| u32::from_str_radix(x, 16).ok())
+        .collect();
+    let cp = u32::from_str_radix(arg_str(args, "--cp").unwrap_or("200D"), 16).unwrap();
+    let c = Case {
+        font: &fonts[fi],
+        face: &face,
+        flags: arg_u64(args, "--flags", 0) as u32,
+        level: arg_u64(args, "--level", 0) as u8,
+        dir: dir_parse(arg_str(args, "--dir").unwrap_or("ltr")).unwrap_or(Direction::LeftToRight),
+        text: &text,
+        pos: arg_u64(args, "--pos", 0) as usize,
+        cp,
+    };
+    let mut with = text.clone();
+    with.insert(c.pos.min(text.len()), cp);
+    let base = shape(&face, &text, Some(c.dir), c.flags, c.level);
+    let out = shape(&face, &with, Some(c.dir), c.flags, c.level);
+    println!("case {}", case_line(&c));
+    println!("without {}", base.map(|o| fmt_out(&o)).unwrap_or_else(|e| format!("panic {}", e)));
+    println!("with    {}", out.map(|o| fmt_out(&o)).unwrap_or_else(|e| format!("panic {}", e)));
+    match predicate(&c) {
+        Ok(None) => println!("holds"),
+        Ok(Some(n)) => println!("holds (beyond the property: {})", n),
+        Err(e) => println!("fail {} | {}", case_line(&c), e),
+    }
+}
+
+/// One code point end to end: classification, props, and U+E000 cp U+E001 on the font with a space
+/// glyph and own glyphs for all candidates (default flags, LTR).
+fn probe(args: &[String]) {
+    let spec = parse_spec(args);
+    let cp = u32::from_str_radix(arg_str(args, "--cp").unwrap_or("180F"), 16).unwrap();
+    let fonts = gen_fonts(&spec);
+    let face = Face::from_slice(&fonts[0].data, 0).expect("generated font");
+    let ch = char::from_u32(cp).unwrap();
+    let (props, scratch) = hook::init_unicode_props(ch);
+    println!(
+        "probe cp={:X} is_default_ignorable={} unicode_props=0x{:X} scratch=0x{:X} own_glyph={} space_glyph={}",
+        cp,
+        hook::is_default_ignorable(ch),
+        props,
+        scratch,
+        fonts[0].gid(cp),
+        fonts[0].space.unwrap()
+    );
+    let text = [0xE000, cp, 0xE001];
+    let out = shape(&face, &text, Some(Direction::LeftToRight), 0, 0);
+    println!("shape E000,{:X},E001 -> {}", cp, out.map(|o| fmt_out(&o)).unwrap_or_else(|e| format!("panic {}", e)));
+    let c = Case { font: &fonts[0], face: &face, flags: 0, level: 0, dir: Direction::LeftToRight, text: &[0xE000, 0xE001], pos: 1, cp };
+    match predicate(&c) {
+        Ok(_) => println!("hidden yes"),
+        Err(e) => println!("hidden no | {}", e),
+    }
 }
